@@ -124,6 +124,9 @@ func keySetFor(alg, keyop string) any {
 var srcSpelling = map[string]string{
 	"short": "docker#v1", "canon": "github.com/buildkite-plugins/docker-buildkite-plugin#v1", "suffixed": "docker-buildkite-plugin#v1",
 	"other": "./local", "other2": "https://example.com/p.git#v2",
+	// a ref that itself holds a slash: still one ref, whatever the spelling of the source in front of it
+	"short_sref": "docker#release/v5", "org_sref": "buildkite-plugins/docker#release/v5", "canon_sref": "github.com/buildkite-plugins/docker-buildkite-plugin#release/v5",
+	"short_sref2": "docker#release/v6",
 }
 
 func cfgValue(name string, rng *mrand.Rand) any {
